@@ -113,6 +113,43 @@ def run(ctx):
                 n_dis += 1
                 if n_dis <= 3:
                     filt.report_disagreement(ctx, "pipeline differs from the model", db, cmds, drv)
+        # commands run_pipeline documents as IGNORED (not a dict, no operation, unknown operation, no data, data that is
+        # neither a list nor a shell command) change nothing; `data` given as a shell command printing the patterns is the
+        # list of those patterns; a criterion that is neither a string nor a triple is skipped under `any`
+        g = 120 if ctx.tier == "quick" else 6000
+        ignored_pool = [{"raw": {}}, {"raw": "include"}, {"raw": None}, {"raw": 42}, {"raw": {"operation": "sort", "data": ["a"]}},
+                        {"raw": {"operation": "include"}}, {"raw": {"operation": "exclude", "data": []}},
+                        {"raw": {"operation": "include", "data": 42}}, {"raw": {"operation": "hide", "data": None}},
+                        {"raw": {"data": ["a"]}}, {"raw": ["include", "a"]}]
+        safe = regex.compile(r"[\w/.]+$").match
+        for i in range(g):
+            db = filt.gen_db(rng)
+            cmds = filt.gen_pipeline(rng, db, rng.randint(1, 4), odd=False, bad_ok=False)
+            variant = []
+            for c in cmds:
+                if rng.random() < 0.5:
+                    variant.append(rng.choice(ignored_pool))
+                pats = [x for x in c["data"] if isinstance(x, str)]
+                if pats and len(pats) == len(c["data"]) and all(safe(x) for x in pats) and rng.random() < 0.4:
+                    variant.append({"raw": {"operation": c["operation"], "data": "printf '%s\\n' " + " ".join(pats)}})
+                elif c["data"] and c["operation"].split()[0] in ("include", "exclude") and not c["operation"].endswith("all") and rng.random() < 0.3:
+                    odd = rng.choice([42, None, ["a", "is"], ("a", "is", "b", "c"), 3.5])
+                    variant.append({"raw": {"operation": c["operation"],
+                                            "data": [x if isinstance(x, str) else tuple(x) for x in c["data"]] + [odd]}})
+                else:
+                    variant.append(c)
+            if rng.random() < 0.5:
+                variant.append(rng.choice(ignored_pool))
+            ra, rb = filt.run_real(db, cmds), filt.run_real(db, variant)
+            ctx.count("ignored / equivalent command forms", repr((sorted(db["programs"]), repr(variant))), nontrivial=filt.nontrivial(ra, db))
+            same = (("exc" in ra) == ("exc" in rb)) and sets_of(ra) == sets_of(rb) and costs_of(ra) == costs_of(rb)
+            # NOT a clause of C06 (the property says nothing of malformed commands): a difference is recorded as a lead in
+            # the evidence, never as a violation — the stream is there so that these branches of run_pipeline are executed
+            # under the monotonicity / order observations above and so that a change there is visible in the evidence
+            ctx.dist("ignored/equivalent command forms: " + ("same result" if same else "DIFFERENT result (lead, see notes)"))
+            if not same and len(ctx.notes) < 3:
+                ctx.notes.append({"lead": "a command documented as ignored (or an equivalent form of a command) changed the result",
+                                  "pipelines": [cmds, [c.get("raw", c) if isinstance(c, dict) else c for c in variant]]})
         # split / merge equivalences and hide neutrality
         m = 350 if ctx.tier == "quick" else 30000
         for i in range(m):
